@@ -75,10 +75,22 @@ func (sh *SearchHistory) Load() error {
 		return nil
 	}
 
-	err = json.Unmarshal(data, sh)
+	// Decode into a scratch value so that a damaged file cannot leave this
+	// history half-overwritten, and never adopt a non-positive max_size:
+	// AddEntry slices with it and would panic on every later search.
+	loaded := SearchHistory{MaxSize: sh.MaxSize}
+	err = json.Unmarshal(data, &loaded)
 	if err != nil {
 		return fmt.Errorf("failed to parse history file: %w", err)
 	}
+	if loaded.MaxSize <= 0 {
+		loaded.MaxSize = sh.MaxSize
+	}
+	if loaded.Entries == nil {
+		loaded.Entries = make([]SearchEntry, 0)
+	}
+	sh.Entries = loaded.Entries
+	sh.MaxSize = loaded.MaxSize
 
 	return nil
 }
